@@ -3,17 +3,16 @@
 Only an explicitly enumerated subset of Python is accepted; anything else aborts with exit 1 naming
 the construct, so that the proof obligations over Gen/ count as broken (never silently skipped).
 Files are rewritten only when their content changes (keeps `make` incremental)."""
-import ast
 import os
 import sys
+
+sys.path.insert(0, os.path.dirname(os.path.abspath(__file__)))
+from v2lib import Unsupported  # noqa: E402
 
 VERIF = os.path.dirname(os.path.dirname(os.path.abspath(__file__)))
 SRC = '/repo/src/CircuitCalculator'
 GEN = os.path.join(VERIF, 'coq', 'Gen')
 
-
-class Unsupported(Exception):
-    pass
 
 
 def write_if_changed(path, text):
